@@ -66,6 +66,9 @@ def injections(doc, ver):
                     break
     if doc["type"] == "marking-definition" and doc.get("definition_type") == "statement":
         out.append({"path": ["definition_type"], "op": "set", "kind": "unregistered-marking-type", "value": "x-unregistered-marking"})
+        # the marking object inside `definition` is content like any embedded object
+        out.append({"path": ["definition", "x_custom_prop"], "op": "add", "kind": "custom-property:marking-content", "value": "v"})
+        out.append({"path": ["definition", "custom_properties"], "op": "add", "kind": "custom_properties-key:marking-content", "value": {"x_hidden": 1}})
     if "extensions" not in m.props(cname):
         # a type without an 'extensions' property (all of STIX 2.0's SDOs/SROs ...) cannot carry a toplevel-property-extension
         out.append({"path": ["extensions"], "op": "add", "kind": "fake-toplevel-extension:top", "value": dict(FAKE_TOPLEVEL), "also_set": {"foo_bar": 5}})
@@ -127,6 +130,9 @@ def prebuild(payload, edit, ver):
         cls = registry.class_for_type(kind.split(":", 2)[2], ver, "extensions")
     elif kind.startswith("custom-property:embedded:"):
         cls = _lib_class(ver, kind.split(":", 2)[2])
+    elif kind == "custom-property:marking-content":
+        import stix2
+        cls = (stix2.v20 if ver == "2.0" else stix2.v21).StatementMarking
     elif kind == "custom-property:container-member":
         cls = registry.class_for_type(sub.get("type"), ver, "observables")
         sub = dict(sub, _valid_refs={"*": "*"}) if ver == "2.0" else sub
